@@ -767,13 +767,17 @@ func (c *Connection) write(ctx context.Context, msg Message) error {
 		}
 		err = s.shuttingDown(ErrServerClosing)
 	})
+	// A message refused above because the connection is shutting down never
+	// reached the Writer: that refusal says nothing about the Writer's health
+	// and must not be recorded as a write failure below.
+	refused := err != nil
 	if err == nil {
 		err = c.writer.Write(ctx, msg)
 	}
 
 	// For cancelled or rejected requests, we don't set the writeErr (which would
 	// break the connection). They can just be returned to the caller.
-	if err != nil && ctx.Err() == nil && !errors.Is(err, ErrRejected) {
+	if err != nil && !refused && ctx.Err() == nil && !errors.Is(err, ErrRejected) {
 		// The call to Write failed, and since ctx.Err() is nil we can't attribute
 		// the failure (even indirectly) to Context cancellation. The writer appears
 		// to be broken, and future writes are likely to also fail.
